@@ -1,6 +1,8 @@
 import FGVerif.Driver.Shared
 import FGVerif.Driver.C07
+import FGVerif.Driver.C05
 import FGVerif.Model.C06
+import FGVerif.Model.C06Full
 /-!
   driver operations for C06
 
@@ -16,9 +18,24 @@ import FGVerif.Model.C06
       impl := ((<hashseed> (<answer> …) (<snapshot digest> …)) …)  -- answers: same object twice, fresh object
       reply `(ok _ 1 <spec_impl> <number of distinct answers>)`; spec: all answers of all processes are
       identical and every snapshot digest equals the one taken before the call.
+  `(C06 e2e <mapper> (<cfgin> …) <env seed> <mol graph> <requireH 0|1> [<impl>])`
+      cfgin := (name patternStr <parsed pattern> (<group atom> …)|_ (<parsed anti-pattern> …) <depth>|_)
+               -- the ARGUMENTS of `FGConfig.__init__` (anti-patterns in the order given)
+      impl  := ((name (atom …)) …) | (raised <Kind>)     -- `FGQuery(mapper, config=[…], require_implicit_hydrogen).get(mol)`
+      reply `(ok <model answer | (raised Assertion)> 1 _ <independent> <distinctStrings> <assertionFree>)`;
+      model = the END-TO-END model `C06.fgQueryGetM` (tree builder + adapter + query), compared EXACTLY with
+      the implementation's answer (correspondence); independent = the model's answer is the same under
+      another set-iteration order and for the reversed list under a third one (what `C06.query_end_to_end` proves whenever
+      the last two flags are 1).
 -/
 namespace C06
 open SExp C07
+
+def asCfgIn : SExp → Option FullConfig
+  | .list [n, ps, g, ga, aps, depth] => do
+      pure (FullConfig.ofParsed (← asStr n) (← asStr ps) (← asGraph g) (← asOpt (asList asInt) ga)
+        (← asList asGraph aps) (← asOpt asInt depth))
+  | _ => none
 
 def ofView (pos : Nat → Nat) (v : View Nat) (n : Nat) : SExp :=
   -- children lists re-indexed by the positions of the given list
@@ -69,6 +86,20 @@ def handle : List SExp → Option SExp
         | [] => pure (none', none')
         | _ => none
       pure (.list [.atom "ok", .list [enc model], ofBool specModel, specImpl, ofBool envIndep, orderContract])
+  | .atom "e2e" :: m :: cfgs :: seed :: g :: rh :: _ => do
+      let m ← asMapper m
+      let cfgs ← asList asCfgIn cfgs
+      let seed ← asNat seed
+      let g ← asGraph g
+      let rh ← asBool rh
+      let ans := fun (s : Nat) (l : List FullConfig) => fgQueryGetM m l (Env.ofSeed s) g rh
+      let enc := fun (o : Option (List (String × List Int))) => match o with
+        | some es => C05.ofEntries es
+        | none => raisedAssertion
+      let model := ans seed cfgs
+      let indep := ans (if seed == 1 then 0 else 1) cfgs == model && ans (seed + 2) cfgs.reverse == model
+      pure (.list [.atom "ok", enc model, ofBool true, none', ofBool indep, ofBool (distinctStringsFull cfgs),
+                   ofBool (assertionFree m cfgs)])
   | [.atom "det", _, before, .list runs] => do
       let runs ← runs.mapM fun r => match r with
         | .list [_, .list answers, .list snaps] => some (answers, snaps)
